@@ -118,7 +118,7 @@ func runC08(c *Ctx) {
 			_ = m
 		}
 		for _, r500 := range s.Find(f, "reply:500") {
-			c.obFactMatch("500 only for the too-long line", r500, `^\(\*Conn\)\.readLine\(param1\)#1 == ErrTooLongLine$`, "closing 500 not tied to ErrTooLongLine")
+			c.obFactMatch("500 only for the too-long line", r500, `^(\(\*Conn\)\.readLine\(param1\)#1 == ErrTooLongLine|errors\.Is\(\(\*Conn\)\.readLine\(param1\)#1,ErrTooLongLine\) == true)$`, "closing 500 not tied to ErrTooLongLine")
 		}
 	}
 
